@@ -361,6 +361,9 @@ func (ex *Exec) visit(g *Goroutine, fr *Frame, instr ssa.Instruction) (yield boo
 		ex.store(ex.get(fr, in.Addr).(Ptr), ex.get(fr, in.Val), in.Pos(), g)
 	case *ssa.If:
 		cond := ex.get(fr, in.Cond).(*Term)
+		if !cond.IsConst() && ex.ifConvert(g, fr, cond) {
+			return false
+		}
 		succ := 1
 		if ex.branch(cond, in.Pos()) {
 			succ = 0
@@ -529,6 +532,9 @@ func (ex *Exec) stackString(g *Goroutine) string {
 // under the current path condition, a panic witness is reported. Execution
 // continues under the assumption that the check passed.
 func (ex *Exec) check(g *Goroutine, fr *Frame, ok *Term, what string, pos token.Pos) {
+	if ex.guard != nil {
+		ok = ex.C.Implies(ex.guard, ok)
+	}
 	if ok.IsTrue() {
 		return
 	}
@@ -558,11 +564,23 @@ func (ex *Exec) load(p Ptr, pos token.Pos, g *Goroutine) Value {
 		}
 		return ex.loadElem(p.Arr, p.Idx)
 	}
+	if p.Tag != nil {
+		// model object (ideal key): its "value" is the object itself
+		return &Opaque{Kind: "deref", Data: p.Tag}
+	}
 	ex.goPanic(g, ex.topFrame(g), "nil pointer dereference", pos)
 	return nil
 }
 
 func (ex *Exec) store(p Ptr, v Value, pos token.Pos, g *Goroutine) {
+	if ex.guard != nil {
+		old := ex.load(p, pos, g)
+		m, ok := ex.merge(ex.guard, v, old)
+		if !ok {
+			panic(unsupported("guarded store of unmergeable values"))
+		}
+		v = m
+	}
 	if p.Slot != nil {
 		if ex.RaceMode {
 			ex.raceAccess(g, p.Slot, true, pos)
@@ -1127,4 +1145,122 @@ func (ex *Exec) show(v Value) string {
 		return typeString(v.T) + "(" + ex.show(v.V) + ")"
 	}
 	return fmt.Sprintf("%T", v)
+}
+
+// ---------------------------------------------------------------------------
+// Guarded if-conversion: a symbolic branch whose arms are call-free straight
+// line blocks joining at a common successor (triangle or diamond) is not
+// forked. The arm is executed under its guard c: stores become
+// *p = ite(c, v, *p), run-time checks become c => check, the phis at the join
+// become ite. This keeps bit-by-bit codecs (one data-dependent `if bit` per
+// bit) on a single path.
+
+func simpleArm(b *ssa.BasicBlock) bool {
+	if len(b.Preds) != 1 || len(b.Instrs) == 0 || len(b.Instrs) > 24 {
+		return false
+	}
+	for i, in := range b.Instrs {
+		last := i == len(b.Instrs)-1
+		switch x := in.(type) {
+		case *ssa.Jump:
+			if !last {
+				return false
+			}
+		case *ssa.BinOp, *ssa.Convert, *ssa.ChangeType, *ssa.IndexAddr, *ssa.FieldAddr, *ssa.Store, *ssa.DebugRef, *ssa.Field, *ssa.Index, *ssa.Slice:
+		case *ssa.UnOp:
+			if x.Op == token.ARROW {
+				return false
+			}
+		default:
+			return false
+		}
+		if last {
+			if _, ok := in.(*ssa.Jump); !ok {
+				return false
+			}
+		}
+	}
+	return true
+}
+
+func (ex *Exec) ifConvert(g *Goroutine, fr *Frame, cond *Term) bool {
+	if ex.NoIfConv {
+		return false
+	}
+	b := fr.block
+	T, F := b.Succs[0], b.Succs[1]
+	type arm struct {
+		blk   *ssa.BasicBlock
+		guard *Term
+	}
+	var arms []arm
+	var join *ssa.BasicBlock
+	switch {
+	case simpleArm(T) && simpleArm(F) && T.Succs[0] == F.Succs[0]:
+		arms = []arm{{T, cond}, {F, ex.C.Not(cond)}}
+		join = T.Succs[0]
+	case simpleArm(T) && T.Succs[0] == F:
+		arms = []arm{{T, cond}}
+		join = F
+	case simpleArm(F) && F.Succs[0] == T:
+		arms = []arm{{F, ex.C.Not(cond)}}
+		join = T
+	default:
+		return false
+	}
+	// the join's phis must only merge scalars/mergeable values; checked when merging
+	saved := ex.guard
+	for _, a := range arms {
+		if saved != nil {
+			ex.guard = ex.C.And(saved, a.guard)
+		} else {
+			ex.guard = a.guard
+		}
+		for _, in := range a.blk.Instrs[:len(a.blk.Instrs)-1] {
+			ex.Steps++
+			ex.visit(g, fr, in)
+		}
+	}
+	ex.guard = saved
+	// phis at the join
+	idxOf := func(pred *ssa.BasicBlock) int {
+		for i, p := range join.Preds {
+			if p == pred {
+				return i
+			}
+		}
+		return -1
+	}
+	var vals []Value
+	n := 0
+	for _, in := range join.Instrs {
+		phi, ok := in.(*ssa.Phi)
+		if !ok {
+			break
+		}
+		var vt, vf Value
+		if len(arms) == 2 {
+			vt = ex.get(fr, phi.Edges[idxOf(T)])
+			vf = ex.get(fr, phi.Edges[idxOf(F)])
+		} else if arms[0].blk == T {
+			vt = ex.get(fr, phi.Edges[idxOf(T)])
+			vf = ex.get(fr, phi.Edges[idxOf(b)])
+		} else {
+			vt = ex.get(fr, phi.Edges[idxOf(b)])
+			vf = ex.get(fr, phi.Edges[idxOf(F)])
+		}
+		m, ok := ex.merge(cond, vt, vf)
+		if !ok {
+			panic(unsupported("if-conversion: unmergeable phi operands in %s", fr.fn.String()))
+		}
+		vals = append(vals, m)
+		n++
+	}
+	for i := 0; i < n; i++ {
+		ex.set(fr, join.Instrs[i].(*ssa.Phi), vals[i])
+	}
+	fr.prev, fr.block = arms[len(arms)-1].blk, join
+	fr.pc = n
+	ex.IfConverted++
+	return true
 }
